@@ -10,7 +10,7 @@ for l in ALL_L:
         if l == 0 and op in ('set_bit', 'word_clone'):
             continue   # no index exists in an empty vector
         quick = l in QUICK_L and not (op in ('clear', 'word_clone') and l not in (65,)) and not (op in ('set_int', 'push_int', 'pop_int') and l > 65)
-        inst(P, 'c05_raw_%s_l%d' % (op, l), 'c05::raw_step(%d, %d)' % (l, k), tier='quick' if quick else ('thorough' if l in THOROUGH_L else 'deep'),
+        inst(P, 'c05_raw_%s_l%d' % (op, l), 'c05::raw_step(%d, %d)' % (l, k), tier='quick' if quick else ('thorough' if (l in THOROUGH_L and not (op in ('set_int', 'push_int', 'pop_int') and l > 66)) else 'deep'),
              unwind=66 if l < 128 else 66, desc='RawVector %s: arbitrary valid %d-bit state, all arguments' % (op, l),
              shape={'len': l, 'op': op}, cap=600,
              stubs=['vec_resize'] if op in ('pop_bit', 'pop_int', 'resize') else [])
